@@ -64,6 +64,9 @@ func c04world(a *ap.App) {
 	a.PutDoc(Doc("Note", cachedForeign, "attributedTo", Carol, "content", "cached foreign note"))
 	a.PutDoc(Doc("Collection", RCol, "items", L{Carol}))
 	a.PutDoc(Doc("Note", RNote, "attributedTo", Carol, "content", "remote", "inReplyTo", Note1))
+	fd := person(fragActor)
+	fd["inbox"] = inboxOf(fragActor)
+	a.PutRemote(fragActor, fd)
 	a.NotOwned[ownedMissing] = false
 	a.NotOwned[localForeign], a.NotOwned[localDangling], a.NotOwned[localForeignCol] = true, true, true
 	a.OwnedExtra[remoteOwned] = true
@@ -75,7 +78,13 @@ func c04world(a *ap.App) {
 	a.PutDoc(Doc("Note", noteEmptyColl, "content", "e2", "likes", Emb("Collection", "", "totalItems", 0), "shares", Emb("Collection", "", "totalItems", 0)))
 }
 
+// an actor whose id carries a fragment (https://host/profile#me is a common actor-id shape)
+const fragActor = "https://r1.example/u/frag#me"
+
 func inboxOf(actor string) string {
+	if actor == fragActor {
+		return "https://r1.example/u/frag/inbox"
+	}
 	if actor == Dave {
 		return Dave + "/inbox" // stored
 	}
@@ -378,7 +387,7 @@ func c04cases(thorough bool) []c04case {
 	for _, objs := range combos([]interface{}{cachedForeign, rn(11), RNote}, maxN) {
 		add("Delete", Doc("Delete", RAct, "actor", Carol, "object", val(objs)), 0)
 	}
-	for _, actors := range combos([]interface{}{Carol, Emb("Person", Carol, "inbox", Carol+"/inbox"), Dave, Erin}, maxN) {
+	for _, actors := range combos([]interface{}{Carol, Emb("Person", Carol, "inbox", Carol+"/inbox"), Dave, Erin, fragActor}, maxN) {
 		for _, object := range []interface{}{Alice, Bob, Carol, L{Bob, Alice}, Emb("Person", Alice)} {
 			for _, of := range []pub.OnFollowBehavior{pub.OnFollowDoNothing, pub.OnFollowAutomaticallyAccept, pub.OnFollowAutomaticallyReject} {
 				add("Follow", Doc("Follow", RAct, "actor", val(actors), "object", object), of)
